@@ -118,7 +118,6 @@ def foldBinOp (t : PrecTable) (sp : Spacing) (orc : Oracle) (l : Expr) (op : Bin
   match operandVal l, operandVal r with
   | some lv, some rv =>
     if op == .div || op == .pow then orig
-    else if valTooBig lv || valTooBig rv then orig      -- printing the original raises inside the try
     else match evalBin orc op lv rv with
       | none => orig
       | some v =>
